@@ -6,7 +6,7 @@
 From Coq Require Import List ZArith NArith Bool String.
 Import ListNotations.
 From DD Require Import Base.PyStr Base.Value Hash.HashModel Hash.Equiv
-  Hash.HashProofsBase Hash.HashProofsC06 Hash.HashProofsC07.
+  Hash.HashProofsBase Hash.HashProofsC06 Hash.HashProofsC07 Hash.HashProofsMemo.
 
 (* Full strength (all plain option records in the property's three modes, all
    values) is false of the faithful model: K1 and K4 below. *)
@@ -85,6 +85,30 @@ Theorem C07_types_differ_partial :
   type_of a <> type_of b -> hash_pure H o a <> hash_pure H o b.
 Proof. exact types_differ_hash_differ. Qed.
 Print Assumptions C07_types_differ_partial.
+
+(* On the observable DeepHash(v)[v] the [hashes] table adds collisions (K2) ... *)
+Theorem C07_memo_refuted :
+  let a := VList [VAtom (AInt 1); VAtom (AHalf 2)] in
+  let b := VList [VAtom (AInt 1)] in
+  deephash hexhash default_opts a = deephash hexhash default_opts b /\ ~ eqv default_opts a b.
+Proof. exact memo_collision_refuted. Qed.
+Print Assumptions C07_memo_refuted.
+
+(* ... and none when no two ==-but-not-identical atoms co-occur inside a value. *)
+Theorem C07_deephash_inj_partial :
+  forall (H : pystr -> pystr),
+  (forall s, s <> [] -> sepfree (H s)) -> (forall s t, H s = H t -> s = t) ->
+  forall o a b,
+  plain o = true -> ignore_iterable_order o = true ->
+  tag_safe a = true -> tag_safe b = true -> wf a = true -> wf b = true ->
+  alias_free a = true -> alias_free b = true ->
+  deephash H o a = deephash H o b -> eqv o a b.
+Proof.
+  intros H H_tok H_inj o a b Hp Hio Ta Tb Wa Wb Aa Ab He.
+  rewrite !deephash_pure in He; auto; try (unfold order_ok; rewrite Hio; reflexivity).
+  eapply C07_hash_inj_partial; eauto.
+Qed.
+Print Assumptions C07_deephash_inj_partial.
 
 (* the guards are satisfiable by a non-trivial value; the hypotheses on H by a concrete hasher *)
 Theorem C07_guards_satisfiable :
